@@ -394,3 +394,197 @@ Definition block_valid (cfg : chain_cfg) (dealloc : list addr) (run : runner) (s
   | BlockOk _ _ used => validate_gas_used h used
   | _ => false
   end.
+
+(* ================================================================== existence layer
+   Which accounts exist (have a state object / a leaf in the account trie) and which
+   are in StateDB.stateObjectsDirty.  This is a second, parallel pass over the same
+   code paths: the value-level functions above are unchanged; the functions below
+   (suffix _e) recompute the same branch conditions and follow only
+   GetOrNewStateObject / createObject / touch / journal revert / Finalise.
+   core/state/statedb.go (GetOrNewStateObject, createObject, AddBalance, Finalise),
+   core/state/state_object.go (touch, AddBalance, SubBalance, empty),
+   core/state/journal.go (createObjectChange / resetObjectChange / touchChange / balanceChange undo).
+   Not modelled: the one-shot `onDirty` callback of a live object (after a reverted
+   touch the object never re-registers as dirty) — property C09's territory. *)
+
+Record estate := mkES { es_exist : list addr; es_dirty : list addr }.
+
+(* state_object.go empty(): nonce == 0 && balance == 0 && no code (storage is not looked at) *)
+Definition is_empty_acc (c : account) : bool := (bal c =? 0)%Z && (nonce c =? 0) && (code c =? 0).
+
+Definition addset (a : addr) (l : list addr) : list addr := if memN a l then l else a :: l.
+Fixpoint remset (a : addr) (l : list addr) : list addr :=
+  match l with [] => [] | x :: t => if x =? a then remset a t else x :: remset a t end.
+Definition unionset (l1 l2 : list addr) : list addr := fold_right addset l2 l1.
+
+(* createObject for a missing account (journal: createObjectChange); newobj.setNonce(0) marks it dirty *)
+Definition es_create (a : addr) (es : estate) : estate := mkES (addset a (es_exist es)) (addset a (es_dirty es)).
+(* a setter on a live object *)
+Definition es_mark (a : addr) (es : estate) : estate := mkES (es_exist es) (addset a (es_dirty es)).
+Definition es_get_or_new (a : addr) (es : estate) : estate := if memN a (es_exist es) then es else es_create a es.
+
+(* StateDB.AddBalance(a, x); s is the value state before the addition *)
+Definition es_add_balance (a : addr) (x : Z) (s : state) (es : estate) : estate :=
+  if memN a (es_exist es) then
+    if (x =? 0)%Z then (if is_empty_acc (get a s) then es_mark a es (* touch *) else es) else es_mark a es
+  else es_create a es.
+
+(* what the interpreter did to existence / dirtiness between CaptureStart and CaptureEnd *)
+Record erun_output := mkEO { eo_created : list addr; eo_dirtied : list addr }.
+Definition erunner := N -> erun_output.     (* by transaction index *)
+
+Definition ripemd_addr : addr := 3.
+
+(* evm.Call at depth 0, reached from TransitionDb (the recipient exists: st.to()) *)
+Definition evm_call_e (cfg : chain_cfg) (num : N) (run : runner) (erun : erunner) (idx : N) (s : state)
+           (caller to : addr) (input : bytes) (gas value : N) (es : estate) : estate :=
+  if negb (can_transfer s caller value) then es
+  else
+    let snap := es in
+    let es1 := if value =? 0 then es else es_mark caller es in                       (* SubBalance(0) returns early *)
+    let es2 := es_add_balance to (Z.of_N value) (sub_balance caller (Z.of_N value) s) es1 in
+    let o := run (mkRI idx caller to false input gas value) (transfer s caller to value) in
+    let eo := erun idx in
+    match ro_status o with
+    | RunOk => mkES (unionset (eo_created eo) (es_exist es2)) (unionset (eo_dirtied eo) (es_dirty es2))
+    | _ =>
+      (* RevertToSnapshot: balanceChange.undo leaves the objects dirty; touchChange.undo un-dirties
+         unless the object was dirty before or is the RIPEMD precompile *)
+      let d := es_dirty snap in
+      let d1 := if value =? 0
+                then (if (to =? ripemd_addr) && memN to (es_dirty es2) then addset to d else d)
+                else addset caller (addset to d) in
+      mkES (es_exist snap) (unionset (eo_dirtied eo) d1)
+    end.
+
+(* evm.Create at depth 0 *)
+Definition evm_create_e (cfg : chain_cfg) (num : N) (run : runner) (erun : erunner) (idx : N) (s : state)
+           (caller : addr) (codeb : bytes) (gas value : N) (es : estate) : estate :=
+  if negb (can_transfer s caller value) then es
+  else
+    let n := nonce (get caller s) in
+    let es0 := es_mark caller es in                                                  (* SetNonce(caller) *)
+    let s0 := set_nonce caller (add64 n 1) s in
+    let caddr := create_address caller n in
+    if negb (nonce (get caddr s0) =? 0) || negb (code (get caddr s0) =? 0) then es0
+    else
+      let snap := es0 in
+      let existed := memN caddr (es_exist es0) in
+      let es1 := es_create caddr es0 in              (* createObject: new leaf, or reset of an existing one; dirty either way *)
+      let es2 := if value =? 0 then es1 else es_mark caller es1 in
+      let s1 := create_account caddr s0 in
+      let s2 := if is_forked (c_eip158 cfg) num then set_nonce caddr 1 s1 else s1 in
+      let s3 := transfer s2 caller caddr value in
+      let o := run (mkRI idx caller caddr true codeb gas value) s3 in
+      let eo := erun idx in
+      let kept := match ro_status o with
+                  | RunOk => true
+                  | RunCodeStoreOOG => negb (is_forked (c_homestead cfg) num)
+                  | _ => false
+                  end in
+      if kept then mkES (unionset (eo_created eo) (es_exist es2)) (unionset (eo_dirtied eo) (es_dirty es2))
+      else
+        let d := if value =? 0 then es_dirty snap else addset caller (es_dirty snap) in
+        (* createObjectChange.undo deletes the object and its dirty mark; resetObjectChange.undo keeps the mark *)
+        let d1 := if existed then addset caddr d else remset caddr d in
+        mkES (es_exist snap) (unionset (eo_dirtied eo) d1).
+
+(* StateDB.Finalise(deleteEmptyObjects) over stateObjectsDirty; sF is the value state before it *)
+Definition finalise_e (delete_empty : bool) (suicided : list addr) (sF : state) (es : estate) : estate :=
+  mkES (filter (fun a => negb (memN a (es_dirty es) &&
+                               (memN a suicided || (delete_empty && is_empty_acc (get a sF)))))
+               (es_exist es))
+       (es_dirty es).      (* the dirty set is only cleared by Commit *)
+
+(* ApplyTransaction, existence side; meaningful when the value side returns TxOk *)
+Definition apply_transaction_e (cfg : chain_cfg) (num : N) (coinbase : addr) (run : runner) (erun : erunner) (idx : N)
+           (s : state) (pool : N) (cum_used : N) (m : message) (es : estate) : estate :=
+  match apply_transaction cfg num coinbase run idx s pool cum_used m with
+  | TxOk r =>
+    let t := x_tdb r in
+    let from := m_from m in
+    let mgval := Z.of_N (m_gas m * m_price m) in
+    let esA := es_get_or_new from es in                                              (* preCheck: st.from() *)
+    let esB := if (mgval =? 0)%Z then esA else es_mark from esA in                    (* buyGas: SubBalance *)
+    let s1 := sub_balance from mgval s in
+    let gas1 := m_gas m - t_intrinsic t in
+    let esC :=
+      match m_to m with
+      | None => evm_create_e cfg num run erun idx s1 from (m_data m) gas1 (m_value m) esB
+      | Some to =>
+          let esn := es_mark from esB in                                             (* SetNonce *)
+          let s2 := set_nonce from (add64 (nonce (get from s1)) 1) s1 in
+          let est := es_get_or_new to esn in                                         (* st.to(): CreateAccount if missing *)
+          evm_call_e cfg num run erun idx s2 from to (m_data m) gas1 (m_value m) est
+      end in
+    (* refundGas: AddBalance(from, remaining): from exists and is already dirty.
+       AddBalance(coinbase, fee): the state before it is t_state with the fee taken back *)
+    let fee := Z.of_N (t_used t * m_price m) in
+    let cb := get coinbase (t_state t) in
+    let cb_was_empty := ((bal cb - fee =? 0)%Z && (nonce cb =? 0) && (code cb =? 0)) in
+    let esE := if memN coinbase (es_exist esC)
+               then (if (fee =? 0)%Z then (if cb_was_empty then es_mark coinbase esC else esC) else es_mark coinbase esC)
+               else es_create coinbase esC in
+    (* Byzantium: Finalise(true); before: IntermediateRoot(IsEIP158) *)
+    let delete_empty := if is_forked (c_byzantium cfg) num then true else is_forked (c_eip158 cfg) num in
+    finalise_e delete_empty (t_suicided t) (t_state t) esE
+  | _ => es
+  end.
+
+Fixpoint process_txs_e (cfg : chain_cfg) (num : N) (coinbase : addr) (run : runner) (erun : erunner) (idx : N)
+         (s : state) (pool cum : N) (txs : list message) (es : estate) : estate :=
+  match txs with
+  | [] => es
+  | m :: rest =>
+    match apply_transaction cfg num coinbase run idx s pool cum m with
+    | TxOk r => process_txs_e cfg num coinbase run erun (idx + 1) (x_state r) (x_pool r) (x_cumulative r) rest
+                              (apply_transaction_e cfg num coinbase run erun idx s pool cum m es)
+    | _ => es
+    end
+  end.
+
+(* ApplyHardFork4: `if statedb.Exist(address) { statedb.SetBalance(address, 0) }` *)
+Fixpoint apply_hf4_e (dealloc : list addr) (es : estate) : estate :=
+  match dealloc with
+  | [] => es
+  | a :: t => apply_hf4_e t (if memN a (es_exist es) then es_mark a es else es)
+  end.
+
+(* accumulateRewards, existence side (threads the value state for the emptiness test of a zero reward) *)
+Fixpoint uncle_rewards_e (num : N) (uncles : list uncle) (s : state) (es : estate) : state * estate :=
+  match uncles with
+  | [] => (s, es)
+  | u :: t =>
+      let r := (((Z.of_N (u_number u) + uncle_div - Z.of_N num) * block_reward) / uncle_div)%Z in
+      uncle_rewards_e num t (add_balance (u_coinbase u) r s) (es_add_balance (u_coinbase u) r s es)
+  end.
+Definition accumulate_rewards_e (h : header) (uncles : list uncle) (s : state) (es : estate) : estate :=
+  if h_number h <? max_money then
+    let '(s1, es1) := uncle_rewards_e (h_number h) uncles s es in
+    let '(_, reward) := uncle_rewards (h_number h) uncles s block_reward in
+    es_add_balance (h_coinbase h) reward s1 es1
+  else es.
+
+(* Process + engine.Finalize (header.Root = IntermediateRoot(IsEIP158)), existence side *)
+Definition process_e (cfg : chain_cfg) (dealloc : list addr) (run : runner) (erun : erunner) (s : state) (h : header)
+           (txs : list message) (uncles : list uncle) (es : estate) : estate :=
+  match pool_add_gas 0 (h_gas_limit h), process cfg dealloc run s h txs uncles with
+  | Some pool, BlockOk s' _ _ =>
+    let es1 := if at_fork (c_hf4 cfg) (h_number h) then apply_hf4_e dealloc es else es in
+    let s1 := block_start cfg dealloc h s in
+    let es2 := process_txs_e cfg (h_number h) (h_coinbase h) run erun 0 s1 pool 0 txs es1 in
+    match process_txs cfg (h_number h) (h_coinbase h) run 0 s1 pool 0 txs [] with
+    | BlockOk s3 _ _ =>
+      let es3 := accumulate_rewards_e h uncles s3 es2 in
+      finalise_e (is_forked (c_eip158 cfg) (h_number h)) [] s' es3
+    | _ => es
+    end
+  | _, _ => es
+  end.
+
+(* the observable state: existing accounts with their content *)
+Definition materialise (s : state) (es : estate) : state := map (fun a => (a, get a s)) (es_exist es).
+(* content outside the existence set would be a modelling error *)
+Definition ghosts (s : state) (es : estate) : list addr :=
+  map fst (filter (fun e => negb (memN (fst e) (es_exist es)) &&
+                            negb (is_empty_acc (snd e) && (stor (snd e) =? 0))) s).
